@@ -44,9 +44,10 @@ def optimize_prec_assignment(model: MPS,
     """
     assert name.lower() == "ne16", "This method currently only supports the NE16 cost model"
 
-    # Modify the sampling strategy to be argmax before the precisions reassignment.
-    # Perform a dummy forward pass to ensure the theta alpha values are updated.
-    model.update_softmax_options(hard=True)
+    # Modify the sampling strategy to be a noise-free argmax before the precisions reassignment
+    # (Gumbel noise or a disabled sampling would leave theta alpha values that are not the argmax
+    # of the current alpha). Perform a dummy forward pass to ensure the theta alpha values are updated.
+    model.update_softmax_options(hard=True, gumbel=False, disable_sampling=False)
     model(model._input_example)
 
     with torch.no_grad():
